@@ -147,7 +147,9 @@ def run_config(case, monitor_reads=False, calls=None):
             ids = [s.id_ for s in inv.sensors() if type(s).__name__ in ("Calculated", "EnumBitmap22", "EnumCalculated")]
             step = max(1, len(ids) // 4)
             obs["singles"] = []
-            for sid in ids[case["seed"] % 3::step][:4]:
+            # ... and of one-byte sensors (half a register: the request must still fetch the register)
+            onebyte = [s.id_ for s in inv.sensors() if type(s).__name__ in ("Byte", "ByteH", "ByteL", "Enum", "EnumH", "EnumL")]
+            for sid in ids[case["seed"] % 3::step][:4] + onebyte[case["seed"] % 2::max(1, len(onebyte) // 2)][:2]:
                 req0 = len(dev.requests)
                 rec = await C.do_call(world, f"read_sensor:{sid}", lambda: inv.read_sensor(sid))
                 obs["singles"].append({"id": sid, "rec": rec, "requests": dev.requests[req0:],
